@@ -782,7 +782,11 @@ class SSeq:
 
     def __str__(self):
         if self.kind is str:
-            raise Unmodelled('str() of symbolic str in formatting')
+            # str() must return a native str: formatting of symbolic text is
+            # not the subject (callers that need the text use the value itself)
+            if Ctx.cur is not None:
+                Ctx.cur.flag('opaque-format')
+            return '<sx:symbolic text>'
         return '<symbolic bytes>'
 
     def __mod__(self, other):
